@@ -7,6 +7,12 @@ open Glue
 
 let split_tab s = OS.split_on_char '\t' s
 
+let rec jn_out (JN (_, name, comp, level, hasc, children, pos, prop, anno, dov)) : ostr =
+  let opt k = function None -> "" | Some v -> ",\"" ^ k ^ "\":\"" ^ hex_of_bytes v ^ "\"" in
+  "{\"name\":\"" ^ hex_of_bytes name ^ "\"" ^ opt "comp" comp ^ ",\"level\":" ^ string_of_int (int_of_nat level)
+  ^ (if hasc then ",\"children\":[" ^ OS.concat "," (List.map jn_out children) ^ "]" else "")
+  ^ (if pos then ",\"pos\":\"x62\"" else "") ^ opt "prop" prop ^ opt "anno" anno ^ opt "dov" dov ^ "}"
+
 let handle (line : ostr) : ostr =
   match split_tab line with
   | ["dov"; tree] ->
@@ -29,6 +35,20 @@ let handle (line : ostr) : ostr =
     let o = { o_flat = b 0; o_bin = b 1; o_anno = b 2; o_dov = b 3; o_actop = b 4 } in
     let fuel = nat_of_int (2 * int_of_nat (node_size n) + 8) in
     res_out hex_of_bytes (vis_print_node vis_T o fuel n)
+  | ["jsonn"; flags; tree] ->
+    let n = node_of_string tree in
+    let b i = flags.[i] = '1' in
+    let o = { o_flat = b 0; o_bin = b 1; o_anno = b 2; o_dov = b 3; o_actop = b 4 } in
+    let fuel = nat_of_int (2 * int_of_nat (node_size n) + 8) in
+    res_out (fun js -> "[" ^ OS.concat "," (List.map jn_out js) ^ "]") (to_json_node vis_T o fuel n)
+  | ["lvn"; flags; tree] ->
+    (* specification Spec/VisView.v: the shown values (comp, text, level, flat label) of the root node *)
+    let n = node_of_string tree in
+    let b i = flags.[i] = '1' in
+    let fuel = nat_of_int (2 * int_of_nat (node_size n) + 8) in
+    let sv (((c, t), l), p) = "[\"" ^ hex_of_bytes c ^ "\",\"" ^ hex_of_bytes t ^ "\"," ^ string_of_int (int_of_nat l) ^ ","
+                              ^ (match p with None -> "null" | Some x -> "\"" ^ hex_of_bytes x ^ "\"") ^ "]" in
+    res_out (fun vs -> "[" ^ OS.concat "," (List.map sv vs) ^ "]") (lv vis_T (b 0) (b 4) fuel None n [] O)
   | ["echo"; tree] -> wstmt (stmt_of_string tree)
   | m :: _ -> "bad:unknown mode " ^ m
   | [] -> "bad:empty"
